@@ -37,6 +37,8 @@ structure ANode where
   finals : List Nat := []                 -- SetFinal calls received by the execution layer (latest first)
   daH : Nat := 1                          -- DA double: current height
   daBlobs : List (Nat × Bool × Nat) := [] -- DA double: (DA height, isData, block height) of stored blobs (latest first)
+  /-- DA double, the stored blobs themselves: (DA height, isData, block height, blob bytes), aligned with `daBlobs` -/
+  daBytes : List (Nat × Bool × Nat × Bytes) := []
   deriving Repr, Inhabited
 
 def maxSubmitAttempts : Nat := 30
@@ -47,11 +49,43 @@ def hdrWmKey : String := "last-submitted-header-height"
 def dataWmKey : String := "last-submitted-data-height"
 def daIncKey : String := "d"
 
-/-- an item to submit: block height and the key under which it is marked -/
+/-- an item to submit: block height, the key under which it is marked, and the blob handed to the DA layer -/
 structure Item where
   height : Nat
   key : Bytes
+  blob : Bytes := []
   deriving Repr, Inhabited
+
+/-! ### the submitted blobs (`SignedHeader.MarshalBinary` / `SignedData.MarshalBinary`)
+
+Signatures and keys are symbolic in the chain model (`Chain.Sig`, `KeyId`); they are embedded into the byte fields of the
+wire types by fixed injections (real Ed25519 signatures and libp2p keys are checked by the Go monitors). -/
+
+def sigBytes : Sig → Bytes
+  | .none => []
+  | .garbage b => 0 :: b
+  | .by k p => 1 :: (Bytes.le 8 k ++ p)
+
+/-- never empty: `FromProto` keeps a signer only when a public key is present -/
+def keyBytes (k : KeyId) : Bytes := 2 :: Bytes.le 8 k
+
+def wireSigner (s : MSigner) : Signer := { address := s.addr, pubKey := (s.key.map keyBytes).getD [] }
+
+/-- the wire form of a stored signed header -/
+def wireHeader (b : Block) : SignedHeader :=
+  { header := b.sh.hdr, signature := sigBytes b.sh.sig, signer := wireSigner b.sh.signer }
+
+/-- `createSignedDataToSubmit`: the stored data, signed at submission time over its encoding with the node's key (the key
+the block's header was signed with), signer = the header's signer -/
+def wireData (b : Block) : SignedData :=
+  { data := b.data
+    signature := sigBytes (match b.sh.signer.key with
+      | some k => .by k b.data.encode
+      | none => .none)
+    signer := wireSigner b.sh.signer }
+
+def hdrBlob (b : Block) : Bytes := (wireHeader b).encode
+def dataBlob (b : Block) : Bytes := (wireData b).encode
 
 /-- `pendingBase.setLastSubmittedHeight`: only grows; persisted -/
 def raiseWm (a : ANode) (isData : Bool) (h : Nat) : ANode × List SW :=
@@ -86,13 +120,15 @@ def submitLoop (isData : Bool) : Nat → ANode → List Item → List DAAns → 
           else { a with hMarks := sub.foldl (fun m it => (it.key, a.daH) :: m) a.hMarks }
         let lastH := (sub.getLast?.map (·.height)).getD 0
         let (a2, w) := raiseWm a1 isData lastH
-        let a3 := { a2 with daH := a.daH + 1, daBlobs := (sub.map fun it => (a.daH, isData, it.height)).reverse ++ a2.daBlobs }
+        let a3 := { a2 with daH := a.daH + 1, daBlobs := (sub.map fun it => (a.daH, isData, it.height)).reverse ++ a2.daBlobs,
+                            daBytes := (sub.map fun it => (a.daH, isData, it.height, it.blob)).reverse ++ a2.daBytes }
         submitLoop isData fuel a3 (rem.drop c) script' (ws ++ w) (calls ++ [⟨isData, hs, ans, a.daH, c⟩])
     | .lost k =>
       let c := cnt k
       let sub := rem.take c
       let a3 := if c = 0 then a else
-        { a with daH := a.daH + 1, daBlobs := (sub.map fun it => (a.daH, isData, it.height)).reverse ++ a.daBlobs }
+        { a with daH := a.daH + 1, daBlobs := (sub.map fun it => (a.daH, isData, it.height)).reverse ++ a.daBlobs,
+                 daBytes := (sub.map fun it => (a.daH, isData, it.height, it.blob)).reverse ++ a.daBytes }
       submitLoop isData fuel a3 rem script' ws (calls ++ [⟨isData, hs, ans, a.daH, c⟩])
     | .canceled => (a, ws, calls ++ [⟨isData, hs, ans, a.daH, 0⟩], false)
     | _ => submitLoop isData fuel a rem script' ws (calls ++ [⟨isData, hs, ans, a.daH, 0⟩])
@@ -111,7 +147,7 @@ def headersIter (a : ANode) (script : List DAAns) : ANode × List SW × List Sub
   else match pendingBlocks a.n.store a.n.hdrWm with
     | none => (a, [], [], .fetchErr)
     | some bs =>
-      let items := bs.map fun b => ({ height := b.sh.hdr.height, key := b.sh.hdr.hash } : Item)
+      let items := bs.map fun b => ({ height := b.sh.hdr.height, key := b.sh.hdr.hash, blob := hdrBlob b } : Item)
       let (a', ws, calls, all) := submitLoop false maxSubmitAttempts a items script [] []
       (a', ws, calls, if all then .done else .incomplete)
 
@@ -124,7 +160,7 @@ def dataIter (a : ANode) (script : List DAAns) : ANode × List SW × List Submit
     | none => (a, [], [], .fetchErr)
     | some bs =>
       let items := (bs.filter fun b => !b.data.txs.isEmpty).map fun b =>
-        ({ height := (b.data.metadata.map (·.height)).getD 0, key := b.data.daCommitment } : Item)
+        ({ height := (b.data.metadata.map (·.height)).getD 0, key := b.data.daCommitment, blob := dataBlob b } : Item)
       if items.isEmpty then
         -- every pending block is empty: nothing to submit; the watermark moves past them (to the height the last
         -- pending block carries in its data metadata)
